@@ -26,13 +26,30 @@ type Profile struct {
 	PUnused      float64
 	PConsOpt     float64
 	MaxInnerCall int
+	PShun        float64
+	POutless     float64
 }
 
 var defaultProfile = Profile{
 	MaxProvs: 9, PWrapper: 0.25, PFallible: 0.15, PLiteral: 0.15, PCacheable: 0.25, PMemoize: 0.1, PInit: 0.3,
 	PIface: 0.12, PAnnot: 0.12, PBadInput: 0.04, PDupOut: 0.25, PReorder: 0.0, PCluster: 0.0, PNamedEdit: 0.0,
-	PNonFinal: 0.03, PRefl: 0.1, PParallel: 0.0, PUnused: 0.05, PConsOpt: 0.05, MaxInnerCall: 3,
+	PNonFinal: 0.03, PRefl: 0.1, PParallel: 0.0, PUnused: 0.05, PConsOpt: 0.05, MaxInnerCall: 3, POutless: 0.1,
 }
+
+// plainProfile: no Cacheable-family annotations (C16's claim), more Shun/Desired/MustConsume
+var plainProfile = func() Profile {
+	p := defaultProfile
+	p.PCacheable, p.PMemoize, p.PAnnot, p.PBadInput, p.PDupOut = 0, 0, 0.3, 0.08, 0.35
+	p.PShun, p.POutless = 0.15, 0.25
+	return p
+}()
+
+// memoProfile: many memoized and fallible injectors (C07, C09)
+var memoProfile = func() Profile {
+	p := defaultProfile
+	p.PMemoize, p.PFallible, p.PWrapper = 0.5, 0.4, 0.15
+	return p
+}()
 
 func pick(rng *rand.Rand, xs []int) int { return xs[rng.Intn(len(xs))] }
 
@@ -195,10 +212,13 @@ func genCase(rng *rand.Rand, n int, seed int64, pf Profile) *CaseDesc {
 				p.FailMask = []uint{0, 0, 0xff, 1, 2, 5, 0xaa}[rng.Intn(7)]
 			} else {
 				min := 1
-				if chance(rng, 0.1) {
+				if chance(rng, pf.POutless) {
 					min = 0
 				}
 				p.Out = pickOut(min)
+				if min == 0 && chance(rng, 0.6) {
+					p.Out = nil
+				}
 			}
 			for _, o := range p.Out {
 				if o != cTE {
@@ -247,6 +267,9 @@ func genCase(rng *rand.Rand, n int, seed int64, pf Profile) *CaseDesc {
 			case 4:
 				p.NonFinal = chance(rng, pf.PNonFinal*5)
 			}
+		}
+		if chance(rng, pf.PShun) {
+			p.Shun = true
 		}
 		if p.Kind != "lit" && chance(rng, pf.PRefl) {
 			p.Refl = true
